@@ -183,6 +183,16 @@ def run(tier, seed, agg):
                     for ta, mk in ((True, False), (False, False), (True, True), (False, True)):
                         links.append([cfg_of(cls, dim, loc, l1), cfg_of(cls, dim, loc, l2), ta, mk])
                     compat.append([cfg_of(cls, dim, loc, l1), cfg_of(cls, dim, loc, l2)])
+    # square / cubic domains with identical coordinates on all axes (a transposed array has the same shape here)
+    for dim, dims in ((2, (3, 3)), (3, (3, 3, 3))):
+        for loc in ("CELLS", "POINTS"):
+            lays = list(layouts(dim))
+            for l in lays:
+                canon.append(dict(cfg_of("uniform", dim, loc, l, dims=dims), sym=True))
+            for l1, l2 in itertools.product(lays, repeat=2):
+                for ta, mk in ((True, False), (True, True)):
+                    links.append([dict(cfg_of("uniform", dim, loc, l1, dims=dims), sym=True), dict(cfg_of("uniform", dim, loc, l2, dims=dims), sym=True), ta, mk])
+                compat.append([dict(cfg_of("uniform", dim, loc, l1, dims=dims), sym=True), dict(cfg_of("uniform", dim, loc, l2, dims=dims), sym=True)])
     # ESRI and its uniform twin, every layout of the twin
     for order in "FC":
         esri = dict(cls="esri", dims=(3, 2), order=order, rev=True, inc=(True, False), loc="CELLS")
